@@ -110,6 +110,12 @@ func c08LagRun(c *Ctx, base string, wl int, w *c08Workload, stopIdx int, tag str
 	if !c08QueueIdle(q, 20*time.Second) {
 		panic("lag: genesis does not drain")
 	}
+	// what the bitcasks hold for the accounts before anything of blocks 1..3 is written
+	baseline := map[string][]byte{}
+	for _, a := range w.Addrs {
+		v, _ := q.VerifPersisted(4, a.Bytes())
+		baseline["4:"+string(a.Bytes())] = v
+	}
 	// blocks 1..3 arrive (unconfirmed, memory only) BEFORE the writer is gated: SetBlock reads through the bitcasks
 	for h := 1; h <= 3; h++ {
 		blk := w.Blocks[h]
@@ -153,6 +159,51 @@ func c08LagRun(c *Ctx, base string, wl int, w *c08Workload, stopIdx int, tag str
 	}
 	fifo := scanWal() // batch 1 ++ batch 2, in queue order (tmp.data was empty: the queue was idle)
 	res.total = len(fifo)
+	// persist-before-acknowledge, on the LIVE store with the real writer and queue goroutines: the index says how many
+	// records of a key are still pending; everything before them has been acknowledged, so the bitcasks must hold
+	// at least that version (read without the bitcask lock: the harness holds it to delay the writer)
+	ackInvariant := func(where string) {
+		idx := map[string]int{}
+		for _, e := range q.VerifIndexDump() {
+			p := strings.Split(e, ":")
+			if len(p) == 3 {
+				n := 0
+				fmt.Sscanf(p[2], "%d", &n)
+				idx[p[0]] = n
+			}
+		}
+		seen := map[string]bool{}
+		for _, r := range fifo {
+			k := fmt.Sprintf("%d:%s", r.Flg, string(r.Key))
+			if seen[k] {
+				continue
+			}
+			seen[k] = true
+			var versions [][]byte
+			for _, r2 := range fifo {
+				if r2.Flg == r.Flg && string(r2.Key) == string(r.Key) {
+					versions = append(versions, r2.Val)
+				}
+			}
+			acked := len(versions) - idx[common.ToHex(r.Key)]
+			if acked <= 0 {
+				continue
+			}
+			got, _ := q.VerifPersisted(r.Flg, r.Key)
+			ok := false
+			for j := acked - 1; j < len(versions); j++ {
+				if string(got) == string(versions[j]) {
+					ok = true
+				}
+			}
+			if !ok {
+				c.Count("lag:acknowledged-before-persisted")
+				c08Fail(c, "c08/acked-record-lost/acknowledged-before-persisted", fmt.Sprintf("[%s] the index holds %d pending record(s) for key %d:%x, so %d of its %d queued versions have been acknowledged — but the bitcasks do not hold version %d or a later one (they hold %d bytes): a record is acknowledged (and may leave the index, which lets emptyFile delete tmp.data) before it is persisted", where, idx[common.ToHex(r.Key)], r.Flg, r.Key, acked, len(versions), acked, len(got)),
+					map[string]interface{}{"level": "ChainDatabase", "family": "writer-lag", "where": where, "index": q.VerifIndexDump()})
+			}
+		}
+		_ = baseline
+	}
 	// stop positions: the writer can be held in front of record p iff its bitcask differs from the one held before
 	res.stops = []int{0}
 	{
@@ -199,7 +250,9 @@ func c08LagRun(c *Ctx, base string, wl int, w *c08Workload, stopIdx int, tag str
 			time.Sleep(2 * time.Millisecond)
 		}
 		persisted = next
+		ackInvariant(fmt.Sprintf("writer lag: blocks 1,2 promoted, writer released up to record %d of %d", next, len(fifo)))
 	}
+	ackInvariant(fmt.Sprintf("writer lag: writer held in front of record %d of %d", persisted, len(fifo)))
 	pending := fifo[persisted:]
 	mkImg := func(name, class string, completed int) *c08Image {
 		img := &c08Image{candsOld: -1, name: name, class: class, cause: "writer-lag", dir: filepath.Join(base, fmt.Sprintf("lagimg-%s-%s", tag, class)), completed: completed, inflight: -1}
